@@ -39,6 +39,8 @@ func extraCommand(name string, args []string) bool {
 		cmdSched(args)
 	case "schedref":
 		cmdSchedRef()
+	case "sitecov":
+		cmdSiteCov(args)
 	case "sites":
 		fmt.Printf("%d sites instrumented=%v unsupported=%v\n", len(field.VerifSites), field.VerifInstrumented, field.VerifUnsupported)
 	default:
@@ -662,3 +664,46 @@ func runSched(t *SchedTrace, pol sched.Policy, schedSeed uint64, replay [][]sche
 }
 
 var _ = strings.Join
+
+
+// cmdSiteCov runs history workloads with a counting hook at every instrumented
+// statement and reports which library statements were executed (diagnostic:
+// blind spots of the workloads).
+func cmdSiteCov(args []string) {
+	fs := flag.NewFlagSet("sitecov", flag.ExitOnError)
+	props := fs.String("props", "C01,C05,C09,C11,C12,C14,C15,C19,C20", "workloads to run")
+	seed := fs.Uint64("seed", 1, "base seed")
+	runs := fs.Uint64("runs", 200, "runs per workload")
+	out := fs.String("out", "", "output file")
+	fs.Parse(args)
+	if err := hist.Init(); err != nil {
+		fatal2("%v", err)
+	}
+	total := make([]uint64, len(field.VerifSites))
+	env := &hist.Env{Build: buildName(), PkgSnap: pkgSnapHook()}
+	for _, p := range strings.Split(*props, ",") {
+		cnt := sched.CountSequential(func() {
+			st := hist.NewStats()
+			for i := uint64(0); i < *runs; i++ {
+				hist.RunSeed(p, *seed, i, st, env)
+			}
+		})
+		for i, c := range cnt {
+			total[i] += uint64(c)
+		}
+	}
+	type row struct {
+		Site  string `json:"site"`
+		Count uint64 `json:"count"`
+	}
+	var rows []row
+	for i, c := range total {
+		rows = append(rows, row{siteName(i), c})
+	}
+	b, _ := json.Marshal(rows)
+	if *out != "" {
+		os.WriteFile(*out, b, 0o644)
+	} else {
+		os.Stdout.Write(b)
+	}
+}
